@@ -904,6 +904,21 @@ func TestVerifC17Chain(t *testing.T) {
 		n.mine(2, types.VoidAddress)
 		n.sync()
 	})
+	// directed 3: a chain longer than the retention window, processed in batches of 100 and 7
+	run("directed: 150 blocks, retention window boundary", 100, func(n *c17Node) {
+		n.fund()
+		n.formContract(160)
+		n.mine(139, types.VoidAddress)
+		n.sync()
+		n.batchSize = 7
+		n.mine(9, types.VoidAddress) // tip 157: indices up to 13 expire one by one
+		n.sync()
+		n.reorg(4, 1)
+		n.sync()
+		n.revise()
+		n.mine(2, types.VoidAddress)
+		n.sync()
+	})
 	if thorough {
 		// reorg deeper than the batch size and across the 144-block retention boundary
 		run("directed: 150-block reorg on a 300-block chain, batch size 100", 100, func(n *c17Node) {
